@@ -6,8 +6,9 @@
   (first standard type, else type 0, before the first).  `Spec.wf r`: valid type indices, at least
   one type, strictly increasing transitions whose wall-clock set-backs do not overlap.
 
-  Proved for ALL well-formed tables and ALL instants before the last recorded transition
-  (and after it when the zone's `ttinfo_std` is the last transition's type).
+  Proved for ALL well-formed tables with at least one transition and ALL instants before the last
+  recorded transition (instants at or after it are outside the property: the code answers
+  `ttinfo_std` there; C04 covers them when that is the last transition's type).
 
   `decode_encode`: the model decoder inverts the tzfile(5) encoder of the spec on every table
   within the format's ranges (`RawWF`).  `eq_of_same_data`: `tzfile.__eq__` (which compares
@@ -95,8 +96,12 @@ theorem dst_zero_on_standard (r : Raw) (hwf : Spec.wf r = true) (t u : Int)
       simp [this]
 
 /-- **decode_encode.** For every raw table within the ranges of the format (32-bit instants and
-    offsets, byte-sized isdst and type indices, NUL-free ASCII abbreviations whose table fits the
-    signed index byte), decoding the version-1 stream written from tzfile(5) gives the table back. -/
+    offsets, byte-sized isdst and type indices, NUL-free ASCII abbreviations whose table has at
+    most 256 bytes so that every start index fits the UNSIGNED `tt_abbrind` byte), decoding the
+    canonical version-1 stream written from tzfile(5) (no leap records, one private NUL-terminated
+    abbreviation per type, full isstd/isgmt arrays, no trailer) gives the table back.  Shared /
+    suffix abbreviation indices, leap records, short flag arrays and v2+ trailers are outside the
+    encoder's image; for them `decode` is tied by the per-run differential dump only. -/
 theorem decode_encode (r : Raw) (h : RawWF r) : decode (encode r) = .ok r :=
   TZ.decode_encode r h
 
